@@ -1129,6 +1129,8 @@ class TexText(TexExpr, str):
         :param str text: Text content
         :param int position: position of first character in original source
         """
+        if position == -1 and getattr(text, 'position', None) is not None:
+            position = text.position
         super().__init__('text', [text], position=position)
         self._text = text
 
